@@ -345,7 +345,7 @@ def resolveContainerX (x : XCtx) : Nat → String → String → Nat → List Se
     let occs := collectX x.c rt (fuel + 1) st sels
     let rs := joinAllT (occs.map (fun o => fun (_ : Unit) =>
       runFieldX x (resolveContainerX x fuel) rt id path o.1 o.2))
-    gather rs (fun vs => ExecStatic.createValueObject (fuel + 1) (vs.filterMap ExecStatic.singleKV)) none
+    gather rs (fun vs => ExecStatic.createValueObject x.c.D (fuel + 1) (vs.filterMap ExecStatic.singleKV)) none
 
 /-- `execute_once` on the selected operation (after `remove_skipped_selection`) -/
 def runOp (D : ExecStatic.Defects) (X : XDefects) (hooked : Bool) (hookAt : Site → Wrap FRes)
